@@ -74,4 +74,15 @@ PROPS = {
         status="full for pos+len-1 within int32 (the coordinate space of VCF/BCF)",
         assumptions=["numpy promotes int32 + intN (N<=32) to int32 and wraps; zarr .blocks returns the variant chunks in order"],
     ),
+    "C16": dict(
+        units=["GenPartitions"],
+        props_files=["Props/C16.v"],
+        driver="c16",
+        rule="filesets from the model's independent bed writer (random padding bits) with 1..13 samples (all residues mod 4) and "
+        "1..40 variants, random / missing-heavy / constant genotype patterns, x variants/samples chunk sizes x workers 0..8 through "
+        "plink.convert; all six arrays vs the extracted bit-level decoder and the bim/fam text. distinct = distinct case document; "
+        "non-trivial = more than one cell",
+        status="full for the genotype decoding and call mapping; bed_reader's parsing of .bim/.fam text is covered only differentially",
+        assumptions=["bed_reader(count_A1=False) reports 00->0, 10->1, 11->2, 01->-127 (exercised differentially)"],
+    ),
 }
